@@ -42,7 +42,7 @@ CLAIMED = {
                  "the state lookup dominates the mark, the Evaluating arm is the only non-codec producer of Error::CIRC, "
                  "restart clears sit inside the restart loop before phase-1 evaluation, writers of Model.cells/support; the function "
                  "implementations that clip whole-row/column ranges use the extent of the range's own sheet.",
-        "note": "Does not decide that stored values equal the formulas' values.  support_match: a written position matches a recorded dependency on sheet, row and column." + TRUST,
+        "note": "Does not decide that stored values equal the formulas' values.  support_match: a written position matches a recorded dependency on sheet, row and column. " + TRUST,
         "technique": "CFG must-pass-through and dominance + who-may-construct / who-may-write",
     },
     "C06": {
@@ -58,7 +58,7 @@ CLAIMED = {
                  "by idiom or by a confirmed reason keyed by function and collection; the stored form of a formula parses back to the "
                  "same tree (PAREN cells of the internal printer; 2 known findings on right-nested additions).",
         "note": "Convergence of the restart-based spill ordering is not decided. A new unclassified hash "
-                "iteration in reachable code is reported for triage (design 6).  support_match as in C05." + TRUST,
+                "iteration in reachable code is reported for triage (design 6).  support_match as in C05. " + TRUST,
         "technique": "who-may-call over the call graph + iterator-chain consumer classification",
     },
     "C08": {
@@ -124,41 +124,41 @@ CLAIMED = {
         "level": "Static decision of the structure of deletion: spill reset dominates every relocation, array-formula pre-check dominates "
                  "the first persistent write with no explicit error after it, formulas/links/conditional formats displaced together, "
                  "descriptor shift provenance (or move order reversed iff delta>0), values moved as cells not re-typed text.",
-        "note": "The index maps (references, CF ranges, links, column descriptors) being equal/inverse is arithmetic over symbolic positions and is not decided; values after the edit are not decided.  CUT: all comparisons of one insert/delete against the same boundary cut at the same point." + TRUST,
+        "note": "The index maps (references, CF ranges, links, column descriptors) being equal/inverse is arithmetic over symbolic positions and is not decided; values after the edit are not decided.  CUT: all comparisons of one insert/delete against the same boundary cut at the same point. " + TRUST,
         "technique": "CFG dominance + effect summaries + call-set agreement + operand provenance",
     },
     "C14": {
         "level": "Static decision of the structure of insert-then-delete pairing: spill reset dominates every relocation, array-formula pre-check dominates "
                  "the first persistent write with no explicit error after it, formulas/links/conditional formats displaced together, "
                  "descriptor shift provenance (or move order reversed iff delta>0), values moved as cells not re-typed text.",
-        "note": "The index maps (references, CF ranges, links, column descriptors) being equal/inverse is arithmetic over symbolic positions and is not decided; values after the edit are not decided.  CUT: all comparisons of one insert/delete against the same boundary cut at the same point." + TRUST,
+        "note": "The index maps (references, CF ranges, links, column descriptors) being equal/inverse is arithmetic over symbolic positions and is not decided; values after the edit are not decided.  CUT: all comparisons of one insert/delete against the same boundary cut at the same point. " + TRUST,
         "technique": "CFG dominance + effect summaries + call-set agreement + operand provenance",
     },
     "C15": {
         "level": "Static decision of the structure of block moves: spill reset dominates every relocation, array-formula pre-check dominates "
                  "the first persistent write with no explicit error after it, formulas/links/conditional formats displaced together, "
                  "descriptor shift provenance (or move order reversed iff delta>0), values moved as cells not re-typed text.",
-        "note": "The index maps (references, CF ranges, links, column descriptors) being equal/inverse is arithmetic over symbolic positions and is not decided; values after the edit are not decided.  BAND: every description of the band shifted by a single row/column move (cells loop, links closure, descriptors) is the same interval." + TRUST,
+        "note": "The index maps (references, CF ranges, links, column descriptors) being equal/inverse is arithmetic over symbolic positions and is not decided; values after the edit are not decided.  BAND: every description of the band shifted by a single row/column move (cells loop, links closure, descriptors) is the same interval. " + TRUST,
         "technique": "CFG dominance + effect summaries + call-set agreement + operand provenance",
     },
     "C16": {
         "level": "Exhaustive static decision for the cut/paste printer to_string_moved: the same 581 PAREN cells as C09 against the "
                  "parser grammar, and the separator/array-nesting tables of both printers against the tokens the parser expects "
                  "per decimal separator.",
-        "note": "Retargeting arithmetic of moved references is not decided.  FLAG-MATCH: each coordinate of a reference is resolved with its own absolute flag." + TRUST,
+        "note": "Retargeting arithmetic of moved references is not decided.  FLAG-MATCH: each coordinate of a reference is resolved with its own absolute flag. " + TRUST,
         "technique": "reaching-definitions grammar vs path-interpreted printer; interpreted separator choices vs parser token tables",
     },
     "C17": {
         "level": "Static decision of the rename rewrite's shape: stores of the new name are control-dependent on an index "
                  "comparison; the walker recurses into every child-bearing Node variant.",
-        "note": "Values after rename/move/duplicate are not decided; parser configuration during the rewrite is C10's rule.  NAME-CASE: stored defined names are compared case-insensitively everywhere." + TRUST,
+        "note": "Values after rename/move/duplicate are not decided; parser configuration during the rewrite is C10's rule.  NAME-CASE: stored defined names are compared case-insensitively everywhere. " + TRUST,
         "technique": "MIR match-arm coverage + control dependence (dominating branch on Eq with the sheet_index parameter)",
     },
     "C27": {
         "level": "Static decision of the guards at the writers of workbook structure (names validated+unique, fresh/captured sheet ids, "
                  "cells enter the grid only through the validated update_cell, spill cells constructed only by the evaluator/importer).",
         "note": "Sortedness/disjointness of cols, uniqueness of rows, index validity of styles/strings/formulas are value invariants of "
-                "loops and are not decided. Two generated-name exceptions with reasons.  BAND for single-row moves; descriptor rules follow the rebuild into a private helper." + TRUST,
+                "loops and are not decided. Two generated-name exceptions with reasons.  BAND for single-row moves; descriptor rules follow the rebuild into a private helper. " + TRUST,
         "technique": "who-may-write inventory + dominance of validators on the written value's provenance",
     },
     "C28": {
@@ -166,7 +166,7 @@ CLAIMED = {
                  "paths; stores into the selected-sheet index are validated or clamps; stores into the selected cell/range are "
                  "constants, copies of stored view fields, or validated by is_valid_row/is_valid_column_number on the same value.",
         "note": "That the selected cell lies inside the selected range (a relation between runtime values) is not decided. Three "
-                "single-site exceptions with reasons (on_paste_styles x2, on_page_up).  Validation must concern the value stored (reaching definitions); RANGE-ANCHOR: every range store has a corner with the provenance of the selected cell." + TRUST,
+                "single-site exceptions with reasons (on_paste_styles x2, on_page_up).  Validation must concern the value stored (reaching definitions); RANGE-ANCHOR: every range store has a corner with the provenance of the selected cell. " + TRUST,
         "technique": "CFG must-pass-through after delete sites + provenance/dominance of validators for every view-field store",
     },
     "C29": {
@@ -178,14 +178,14 @@ CLAIMED = {
     "C18": {
         "level": "Static decision of reader/writer configuration agreement: per value kind (boolean, error, number) the Language/Locale "
                  "tables consulted when displaying are consulted when recognising typed input; quote-prefix read/set agreement.",
-        "note": "That the recognisers invert the printers on every string/number is not decided (see C19).  QUOTE-STYLE: every cell write of set_user_input uses a style normalised for the quote prefix." + TRUST,
+        "note": "That the recognisers invert the printers on every string/number is not decided (see C19).  QUOTE-STYLE: every cell write of set_user_input uses a style normalised for the quote prefix. " + TRUST,
         "technique": "transitive field-read sets over the call graph compared between sibling code paths",
     },
     "C21": {
         "level": "Static decision of the correspondence: both conversions are translations; literals read from MIR satisfy "
                  "EXCEL_DATE_BASE = ordinal(base date) - k; identical bounds mapping to 1899-12-31 and 9999-12-31; every "
                  "num_days_from_ce site subtracts the same constant (exhaustive over both crates).",
-        "note": "chrono's calendar arithmetic trusted; WEEKDAY's return-type table not decided.  PANIC (scoped): the calendar helpers have no unsigned underflow / division by zero, by the zone engine with chrono's accessor ranges." + TRUST,
+        "note": "chrono's calendar arithmetic trusted; WEEKDAY's return-type table not decided.  PANIC (scoped): the calendar helpers have no unsigned underflow / division by zero, by the zone engine with chrono's accessor ranges. " + TRUST,
         "technique": "constant extraction from MIR + algebraic identity on proleptic-Gregorian ordinals + who-may-convert",
     },
     "C22": {
@@ -201,7 +201,7 @@ CLAIMED = {
                  "inverse bijections (495 x 3 tables), xlsx names parse back, and per language (5 x 495 names, 12 errors) the "
                  "decoded language.bin satisfies distinctness / uppercase fixed point / single-identifier / prefix-freedom.",
         "note": "Python str.upper/isalnum stand in for Rust's to_uppercase/is_alphanumeric on the table strings; the table "
-                "decoder is generated from the ADT facts and only decodes the embedded constant.  The identifier-start class is read from Lexer::next_token and every localized name must start in it." + TRUST,
+                "decoder is generated from the ADT facts and only decodes the embedded constant.  The identifier-start class is read from Lexer::next_token and every localized name must start in it. " + TRUST,
         "technique": "if-chain and match-table extraction from MIR + exhaustive checks on decoded constant tables",
     },
     "C24": {
@@ -209,47 +209,47 @@ CLAIMED = {
                  "writer and set from the package by code reachable from the reader), Cell variant arms/constructors, formula printer/"
                  "parser pairing, the export-form PAREN cells, error literal tables and the XML escape table.",
         "note": "That values and attributes survive numerically and textually is not decided. Allow-list of 5 fields with reasons; three "
-                "known findings (comments, diagonal border flags).  Optional attributes are written under their own flag (flag/attribute pairing in the exporter)." + TRUST,
+                "known findings (comments, diagonal border flags).  Optional attributes are written under their own flag (flag/attribute pairing in the exporter). " + TRUST,
         "technique": "field read/write coverage over call-graph reachability + tables shared with C09",
     },
     "C26": {
         "level": "Structural decision: Encode+Decode derived on the entire field closure of Workbook without bitcode "
                  "attributes; to_bytes/from_bytes/from_workbook have the required shape (whole workbook encoded, reparse "
                  "must-pass-through before Ok).",
-        "note": "bitcode's codec is trusted; printer/parser agreement on the re-parsed R1C1 text is C09's subject.  Name comparisons use the fold family the printer uses (Unicode to_lowercase, not ASCII-only)." + TRUST,
+        "note": "bitcode's codec is trusted; printer/parser agreement on the re-parsed R1C1 text is C09's subject.  Name comparisons use the fold family the printer uses (Unicode to_lowercase, not ASCII-only). " + TRUST,
         "technique": "impl/ADT closure query + CFG dominance (must-pass-through) + provenance of encode/decode operands",
     },
     "C30": {
         "level": "Static decision of coverage and same-named provenance in the style pools (interning reads every Style field and builds "
                  "CellXfs from the style's own parts; read-back and dedup comparison fill every Style field from its own slot), plus the "
                  "shared constant table of the two number-format lookups.",
-        "note": "Aliasing through imported num_fmts that redefine a built-in id is not decided.  Interned indices returned come from a lookup or a push, never from a constant." + TRUST,
+        "note": "Aliasing through imported num_fmts that redefine a built-in id is not decided.  Interned indices returned come from a lookup or a push, never from a constant. " + TRUST,
         "technique": "field coverage + reaching-definition provenance of aggregate fields",
     },
     "C31": {
         "level": "Static decision of spill bookkeeping guards: reset before relocation, no #SPILL! decision after a spill write, scan and "
                  "write loops over identical ranges, constructors of Cell::SpillCell, ownership test in spill clean-up loops.",
-        "note": "Exactness of block contents and staleness across passes are not decided. Two single-site exceptions with reasons.  Restart clears of Model::evaluate sit inside the restart loop (shared with C05)." + TRUST,
+        "note": "Exactness of block contents and staleness across passes are not decided. Two single-site exceptions with reasons.  Restart clears of Model::evaluate sit inside the restart loop (shared with C05). " + TRUST,
         "technique": "CFG reachability/dominance + who-may-construct + loop-body field-read analysis",
     },
     "C32": {
         "level": "Static decision of the defined-name plumbing: C10's typestate/English-storage rules for DefinedName.formula, rename "
                  "walker coverage (children and name-carrying variants), all-worksheets rewrite, reparse after every change, English "
                  "re-parse on xlsx import.",
-        "note": "Values of names and scope resolution are not decided. One known finding (LAMBDA call sites not renamed).  NAME-CASE; a name scoped to a deleted sheet is skipped by parse_defined_names." + TRUST,
+        "note": "Values of names and scope resolution are not decided. One known finding (LAMBDA call sites not renamed).  NAME-CASE; a name scoped to a deleted sheet is skipped by parse_defined_names. " + TRUST,
         "technique": "typestate dataflow + match-arm coverage + effect-based must-reach",
     },
     "C33": {
         "level": "Static decision that metadata is handled wherever cells are: displacement call-set agreement (TRIPLE), capture of "
                  "every link-changing Model call made by a UserModel operation (LINK-DIFF, by effect summaries + dominance), and the "
                  "three cut-update helpers with their diffs (TRIPLE-cut).",
-        "note": "Agreement of the three displacement maps on edge positions is arithmetic and not decided.  BAND for single-row moves (links closure vs cells vs descriptors)." + TRUST,
+        "note": "Agreement of the three displacement maps on edge positions is arithmetic and not decided.  BAND for single-row moves (links closure vs cells vs descriptors). " + TRUST,
         "technique": "effect summaries + CFG dominance + call-set agreement",
     },
     "C34": {
         "level": "Exhaustive finite-domain path interpretation of next_state (4 inputs): bijection with a single 4-cycle; "
                  "provenance of every append to cycle_endpoint's result ('$', upper-cased column slice, row slice).",
-        "note": "Span arithmetic in cycle_reference is not decided.  PANIC (scoped): every index and slice of the F4 rewriting stays inside the token text (zone engine)." + TRUST,
+        "note": "Span arithmetic in cycle_reference is not decided.  PANIC (scoped): every index and slice of the F4 rewriting stays inside the token text (zone engine). " + TRUST,
         "technique": "finite-domain path interpreter over MIR + provenance of Vec appends",
     },
 }
